@@ -269,7 +269,12 @@ func checkC18(c *Ctx, r *Report) {
 					seenAtt = true
 				}
 				if call, ok := in.(*ssa.Call); ok && !seenAtt {
-					if f := call.Call.StaticCallee(); f != nil && c.InModule(f) {
+					// a helper whose body is on this path is judged by its body; any other module
+					// function that can transmit must come after the attempt is counted
+					if p.fl != nil && p.fl.Spliced(call) {
+						continue
+					}
+					if f := call.Call.StaticCallee(); f != nil && c.InModule(f) && c.reachesSend(f) {
 						first = false
 					}
 				}
@@ -312,7 +317,7 @@ func checkC18(c *Ctx, r *Report) {
 			var cands []Cell
 			for _, cl := range scalarCellsOf(s.Fn) {
 				written := false
-				rawInstrs(s.Fn, false, func(in ssa.Instruction) {
+				viewInstrs(s.Fn, func(in ssa.Instruction) {
 					if c2, _, ok := cellStore(in); ok && c2 == cl {
 						written = true
 					}
